@@ -383,6 +383,11 @@ func sets(fixed bool) []tset {
 		out = append(out, tset{kind: kind, wmutex: fixed, live: []int{1, 2}, watched: []string{"t1", "t2"},
 			threads: []thr{{kind: 0, w: 1, n: "t1", id: 10, svcs: svcA}, {kind: 0, w: 2, n: "t2", id: 20, svcs: svcB}, {kind: 1, w: 1, n: "t1"}, {kind: 2, n: pick(kind, "t2", "s.b")}},
 			probes:  []string{pick(kind, "t1", "s.a"), pick(kind, "t2", "s.b"), pick(kind, "t2", "s.c")}})
+		// 6: both targets close; the service router's contested service must not be handed to a target that is already gone
+		// (t2 lists nothing but the contested service: when it loses the contest it owns no route at all; it closes, then the owner releases)
+		out = append(out, tset{kind: kind, wmutex: fixed, live: []int{1, 2}, watched: []string{"t1", "t2"},
+			threads: []thr{{kind: 0, w: 1, n: "t1", id: 10, svcs: svcA}, {kind: 0, w: 2, n: "t2", id: 20, svcs: []string{"s.b"}}, {kind: 1, w: 2, n: "t2"}, {kind: 1, w: 1, n: "t1"}},
+			probes:  []string{pick(kind, "t1", "s.a"), pick(kind, "t2", "s.b"), pick(kind, "t2", "s.c")}})
 		// 5: double close + update
 		out = append(out, tset{kind: kind, wmutex: fixed, live: []int{1}, watched: []string{"t1"},
 			threads: []thr{{kind: 1, w: 1, n: "t1"}, {kind: 1, w: 1, n: "t1"}, {kind: 0, w: 1, n: "t1", id: 10, svcs: svcA}},
@@ -410,14 +415,45 @@ func main() {
 	routing.VerifYieldHook = hook
 	total := 0
 	limit := vc.Scale(700, 100000)
+	rnd := vc.NewRand(vc.Seed())
 	for _, s := range sets(fixed) {
 		scheds := enumerate(root, s)
-		per := limit / 10
+		per := limit / 12
 		step := 1
 		if len(scheds) > per {
 			step = len(scheds)/per + 1
 		}
+		// every schedule in which the threads run one after the other (all orders of whole operations), then an even
+		// sample and a seeded random sample of the finer interleavings
+		chosen := map[int]bool{}
+		var order []int
+		add := func(i int) {
+			if !chosen[i] {
+				chosen[i] = true
+				order = append(order, i)
+			}
+		}
+		for i, sch := range scheds {
+			switches := 0
+			for k := 1; k < len(sch); k++ {
+				if sch[k] != sch[k-1] {
+					switches++
+				}
+			}
+			if switches < len(s.threads) {
+				add(i)
+			}
+		}
+		nseq := len(order)
 		for i := 0; i < len(scheds); i += step {
+			add(i)
+		}
+		if step > 1 {
+			for k := 0; k < per/2; k++ {
+				add(rnd.Intn(len(scheds)))
+			}
+		}
+		for _, i := range order {
 			sch := scheds[i]
 			sv := vc.L{}
 			for _, x := range sch {
@@ -427,6 +463,6 @@ func main() {
 			w.Case(vc.L{s.val(), sv, vc.Strs(s.probes)}, out, true)
 			total++
 		}
-		fmt.Printf("STAT set_%d_%d \"%d of %d schedules\"\n", s.kind, len(s.threads), (len(scheds)+step-1)/step, len(scheds))
+		fmt.Printf("STAT set_%d_%d \"%d of %d schedules (%d of them whole-operation orders)\"\n", s.kind, len(s.threads), len(order), len(scheds), nseq)
 	}
 }
